@@ -112,6 +112,17 @@ def generate(seed, tier, index):
             e2 = rng.choice(els)
             step["then"] = [[e2["name"], rng.choice(["On", "Off"]) if v["kind"] == "Switch" else V.rand_text(rng, maxlen=10), None]]
             step["then_gap"] = rng.choice([0, 0, 1, 2])
+        elif twin and d in ("DEV0", "DEV1") and v["kind"] in ("Text", "Number") and rng.random() < 0.5:
+            # the same-named property of the twin device (second instance of the same driver class) is written right behind,
+            # before anything about the first write can have come back: both updates are in flight to the client together
+            pairs2 = []
+            for e in rng.sample(els, rng.randint(1, len(els))):
+                if v["kind"] == "Number":
+                    txt, val = V.client_number(rng, e["format"])
+                    pairs2.append([e["name"], txt, val])
+                else:
+                    pairs2.append([e["name"], V.rand_text(rng, maxlen=12), None])
+            step["twin"] = {"dev": "DEV1" if d == "DEV0" else "DEV0", "els": pairs2, "gap": rng.choice([0, 0, 1, 2])}
         steps.append(step)
     net = {"latency": rng.choice(["zero", "lan", "slow", "bursty", "skew"]),
            "frag": rng.choice(["whole", "fixed:1", "fixed:7", "fixed:64", "random", "random", "coalesce"]),
@@ -178,6 +189,17 @@ def execute(scen):
                 if res2.error:
                     res = res2
                 probes["second_submit_before_answer"] = probes.get("second_submit_before_answer", 0) + 1
+            tw = st.get("twin")
+            if tw and not res.skipped and not res.error:
+                if tw.get("gap"):
+                    sim.loop.step_iterations(tw["gap"])
+                res3 = apply_step(stack, {"op": "c_write", "c": st["c"], "dev": tw["dev"], "vec": st["vec"], "els": [[n, v] for n, v, _ in tw["els"]]})
+                if res3.error:
+                    res = res3
+                elif res3.skipped:
+                    tw = None
+                else:
+                    probes["same_named_property_of_twin_written_right_behind"] = probes.get("same_named_property_of_twin_written_right_behind", 0) + 1
             f2 = dict(facts, kind=kind)
             ctx = f"write {st['dev']}.{st['vec']} {[(n, (v if not isinstance(v, dict) else 'BLOB[%d]' % (len(v['blob_hex']) // 2))) for n, v, _ in st['els']]}"
             if res.skipped:
@@ -221,7 +243,8 @@ def execute(scen):
                         viol.append({"clause": "C06.target", "detail": f"{key} changed {before[key]!r} -> {after[key]!r}; {ctx}", "facts": f2})
                         break
                     continue
-                is_addr = (d == st["dev"] and vn == st["vec"] and en in addressed)
+                is_addr = (d == st["dev"] and vn == st["vec"] and en in addressed) or (
+                    tw is not None and d == tw["dev"] and vn == st["vec"] and en in {n for n, _, _ in tw["els"]})
                 if not is_addr:
                     if after[key] != expected[key]:
                         viol.append({"clause": "C06.target", "detail": f"unaddressed element {key} changed {before[key]!r} -> {after[key]!r} (expected {expected[key]!r}); {ctx}", "facts": f2})
@@ -232,9 +255,11 @@ def execute(scen):
             # addressed values (last occurrence of a name wins)
             last = {}
             for n, v, num in list(st["els"]) + list(st.get("then", [])):
-                last[n] = (v, num)
-            for n, (v, num) in last.items():
-                got = after[(st["dev"], st["vec"], n)]
+                last[(st["dev"], n)] = (v, num)
+            for n, v, num in (tw["els"] if tw else []):
+                last[(tw["dev"], n)] = (v, num)
+            for (wd, n), (v, num) in last.items():
+                got = after[(wd, st["vec"], n)]
                 if kind == "Text":
                     if (got or "") != (v or ""):
                         viol.append({"clause": "C06.value", "detail": f"{n} holds {got!r}, submitted {v!r}; {ctx}", "facts": f2})
@@ -262,6 +287,8 @@ def execute(scen):
             v2 = []
             truth = stack.truth(st["dev"])
             c01.compare_view(sim, node.name, node.client, node.model, node.handshakes, stack, st["dev"], truth, v2, f2, node.applied)
+            if tw and not v2:
+                c01.compare_view(sim, node.name, node.client, node.model, node.handshakes, stack, tw["dev"], stack.truth(tw["dev"]), v2, f2, node.applied)
             for x in v2:
                 fx = x["facts"]
                 if fx.get("kind") == "BLOB" and (x["clause"] == "C01.state" or (fx.get("missing_payload") and (
